@@ -12,12 +12,20 @@ from spec.crypto import (AES, CMAC, P256_A, P256_B, P256_P, shift_spec, ah_be, b
 
 ENVIRONMENT = [
     'AES-128 (FIPS-197) and, for the library back end, AES-CMAC are uninterpreted functions: that the `cryptography` '
-    'C library and the built-in table-driven _AES compute FIPS-197 AES is NOT proved (external code / table arithmetic '
-    'outside SMT reach); a seeded differential run of both back ends is reported under `bounded`',
-    'P-256 group arithmetic (_JacobianPoint double/add/mul, to_affine, ECDH symmetry, public-key derivation) is not proved: '
-    '256-bit non-linear arithmetic; only the on-curve gate of EccKey.dh is; the differential run covers the rest (bounded)',
-    'built-in AES-CMAC is proved equal to RFC 4493 for every message content at each enumerated message length '
-    '(bounded in length, unbounded in content); the lengths used by the Security Manager (4, 16, 32, 53, 65, 80) are among them',
+    'C library and the built-in table-driven _AES (key schedule, S-box rounds) compute FIPS-197 AES is NOT proved (external code / table '
+    'arithmetic outside SMT reach); _AES.__init__/_AES.encrypt and the library e/aes_cmac enter as trusted contracts; a seeded native '
+    'differential run of both back ends against each other and against the oracle is reported under `bounded`',
+    'P-256 group arithmetic (_JacobianPoint double/add, to_affine, ECDH symmetry, public-key derivation, agreement of the two EccKey classes) '
+    'is not proved: 256-bit non-linear arithmetic; proved are only the on-curve gate of the built-in EccKey.dh (with _EllipticCurve.'
+    'ecdh_shared_secret opaque) and the termination of _JacobianPoint.__mul__; the differential run covers the rest (bounded)',
+    'that the library back end rejects an off-curve point is a property of the `cryptography` package (EllipticCurvePublicNumbers.public_key): '
+    'observed in the differential run only',
+    'built-in AES-CMAC == RFC 4493 is proved for every message length up to the 2**52 bytes _CMAC accepts and every content, for the one '
+    'call pattern aes_cmac uses (_CMAC(key, msg).digest(): one update on a fresh object); incremental update()/digest() sequences '
+    '(update after a partial block, update_after_digest) are not covered',
+    'the solver sees the XOR of two symbolic bytes as a commutative uninterpreted function; associativity, cancellation and constants are '
+    'normalised by the VC generator (pyvc/ext_c14.py) -- part of the trusted checker',
+    'secrets.token_bytes returns arbitrary bytes of the requested length (model of the VC generator)',
     '"does not resolve under an unrelated key" is false as a universal statement (24-bit hash) and is not claimed',
 ]
 
